@@ -692,7 +692,7 @@ def gen_fit(g, src, tname, unique, fit):
     the tag's own type tname."""
     from ref.model import representable
     v = convert(src, gen_value(g, src, unique))
-    if not fit and src != tname and src in rc.INT_RANGE and tname in rc.INT_RANGE and g.chance(1, 3, 'edgeval'):
+    if not fit and src != tname and src in rc.INT_RANGE and tname in rc.INT_RANGE and g.chance(1, 2, 'edgeval'):
         # the edges of the *tag's* range as seen from the declared type: hi, hi+1, lo, lo-1
         lo, hi = rc.INT_RANGE[tname]
         slo, shi = rc.INT_RANGE[src]
@@ -768,6 +768,17 @@ def gen_op(g, model, unique, kinds=None, boundary=0, cross=0, allow_addr=True, t
     dt = tname
     if cross and g.chance(cross, 10, 'cross'):
         dt = g.choice(ALL_TYPES, 'dtype')
+        if tname in rc.INT_RANGE and g.chance(1, 2, 'related'):
+            # the declared types whose range straddles the tag's: same width with the other sign, and
+            # the next wider ones -- where an off-by-one in a range check shows
+            order = ['SINT', 'INT', 'DINT', 'LINT']
+            uorder = ['USINT', 'UINT', 'UDINT', 'ULINT']
+            k = order.index(tname) if tname in order else uorder.index(tname) if tname in uorder else None
+            if k is not None:
+                rel = [uorder[k] if tname in order else order[k]]
+                if k + 1 < 4:
+                    rel += [order[k + 1], uorder[k + 1]]
+                dt = g.choice(rel, 'reltype')
     op['tname'] = dt
     src = dt
     if kind == 'write':
